@@ -21,6 +21,7 @@ unsigned view is the residue in range(p), int() follows is_signed, and every vie
 for extension fields int() is the base-p code sum(c_i p^i) in range(q).
 """
 
+import itertools
 import json
 import os
 import pickle
@@ -145,10 +146,9 @@ def max_len(R, mode, tier):
 
 def lists_from(alpha, first, maxlen):
     """All lists over alpha of length 1..maxlen whose first entry is `first`."""
-    level = [[first]]
-    for _ in range(maxlen):
-        yield from level
-        level = [l + [v] for l in level for v in alpha]
+    for n in range(maxlen):
+        for tail in itertools.product(alpha, repeat=n):
+            yield [first, *tail]
 
 
 def long_lists(alpha):
